@@ -115,7 +115,7 @@ def layer_cases(draw):
         "wq": draw(st.sampled_from(sorted(O.QTALL))),
         "aq": draw(st.sampled_from(sorted(ACT))),
         "bias": draw(st.booleans()),
-        "pattern": draw(st.sampled_from(["zeros", "zeros", "zero-rows", "const", "single-row", "zero-cols"])),
+        "pattern": draw(st.sampled_from(["zeros", "zeros", "zero-rows", "const", "single-row", "zero-cols", "pooling"])),
         "seed": draw(st.integers(0, 2**20)),
         "out": draw(st.integers(1, 9)),
         "oscale": draw(st.sampled_from([1.0, 1.0, 0.05, 3.0])),
@@ -123,6 +123,8 @@ def layer_cases(draw):
     }
     if kind == "linear":
         c["inf"] = draw(st.sampled_from([1, 3, 7, 8, 16, 32, 33, 48, 64, 160, 256]))
+        if c["pattern"] == "pooling":
+            c["inf"] = draw(st.sampled_from([512, 1024, 2048]))  # an averaging layer over many one-sided inputs
     else:
         c["inf"] = draw(st.integers(1, 6))
         c["k"] = draw(st.integers(1, 3))
@@ -151,6 +153,12 @@ def make_layer(case):
         w[1:] = 0
     elif p == "zero-cols":
         w[:, ::2] = 0
+    elif p == "pooling":
+        # constant rows 1/n (codes all at the end of the grid) on post-ReLU-like inputs: outputs of order one, while the sum of
+        # input x code products is tens of thousands
+        w = torch.full(w.shape, 1.0 / max(1, w[0].numel()))
+        w[::2] *= -1
+        x = x.abs() * 3 + 1
     with torch.no_grad():
         m.weight.copy_(w)
         if case["bias"]:
